@@ -57,6 +57,13 @@ def one_sequence(ctx, lc, seq, tid, hist_mode):
         ctx.violation("omega-sequence", case, actual=os_)
     if num(k2):
         ev.append({"q": "kappax", "g1": ["E", "D"], "g2": ["K", "R"], "r": common.fx(k2[1])})
+    # the same union of residues, merged or split elsewhere, right after (a memo keyed on the letters only would go stale)
+    for ga, gb in ((["E", "D", "K", "R"], []), (["D"], ["E", "K", "R"]), (["D", "E", "K"], ["R"]), (["D", "E"], ["K", "P", "R"]), (["P", "E", "D", "K", "R"], [])):
+        v = common.call(o.get_kappa_X, ga, gb or None)
+        if num(v):
+            ev.append({"q": "kappax", "g1": ga, "g2": gb, "r": common.fx(v[1])})
+        else:
+            ctx.violation("kappaX-failed", dict(case, g1=ga, g2=gb), actual=v)
     # random groups; every other round a lopsided pair (a residue type that occurs 1-3 times against frequent ones)
     from collections import Counter
     cnt = Counter(seq)
@@ -139,6 +146,21 @@ def run(ctx):
     for s in short + longer:
         tid += 1
         trs.append(one_sequence(ctx, lc, s, tid, tid % 3))
+    # more than 256 residues of the P/E/D/K/R class: the X/O string and the two equalities (kappa itself is beyond TLC's bound here)
+    for rep in range(2):
+        big = "".join(ctx.rng.choices("PEDKRGSQ", weights=[3, 3, 2, 3, 2, 1, 1, 1], k=ctx.rng.randint(420, 520)))
+        ob = lc.SP(big)
+        om, kx, osq = common.call(ob.get_Omega, limit=300), common.call(ob.get_kappa_X, list(OMEGA), limit=300), common.call(ob.get_Omega_sequence)
+        ctx.evaluations += 1
+        if not eq(om, kx):
+            ctx.violation("omega-is-not-kappaX(PEDKR)", {"seq": big[:40] + "...", "length": len(big)}, expected=om, actual=kx)
+        want = "".join("X" if c in OMEGA else "O" for c in big)
+        if osq[0] != "ok" or osq[1] != want:
+            ctx.violation("omega-sequence", {"seq": big[:40] + "...", "length": len(big)}, expected=want[:60], actual=osq[1][:60] if osq[0] == "ok" else osq)
+        two = lc.SP("".join("E" if c in OMEGA else "K" for c in big))
+        kk = common.call(two.get_kappa, limit=300)
+        if not eq(om, kk):
+            ctx.violation("omega-is-not-kappa-of-the-recoded-sequence", {"seq": big[:40] + "...", "length": len(big)}, expected=kk, actual=om)
     patterning.judge_traces(ctx, trs)
     ctx.sample({"trace": {"seq": "".join(trs[-1]["seq"]), "ev": [{k: e[k] for k in e if k != "r"} for e in trs[-1]["ev"]][:4]}})
     ctx.assumptions += ["swap law asserted for disjoint groups only; on overlap the first group wins (value judged by TLC)",
